@@ -180,6 +180,9 @@ func dischargeAll(results []*FuncResult, dir string, timeoutMs int, all bool, wo
 		go func() {
 			defer wg.Done()
 			for j := range ch {
+				if j.ob.Verdict != "" {
+					continue
+				}
 				// trivial obligations are decided syntactically
 				if j.ob.Expect == "unsat" && (j.ob.Cond.S == "true" || j.ob.PC.S == "false") {
 					j.ob.Verdict = "unsat"
